@@ -49,7 +49,18 @@ structure Script where
   appear : Nat := 0
   stream : List Nat := []
   exp : List String := []
+  /-- scripts whose successive connections negotiate DIFFERENT protocol modes (a panel reconfigured, or another device
+  behind the same address, between two sessions of one call): connection k (1-based) is served in mode `per[k-1].1` with
+  the stream `per[k-1].2.1` whose complete frames decode to `per[k-1].2.2` (the last entry for every later connection);
+  empty = every connection as `mode` / `stream` / `exp` -/
+  per : List (Mode × List Nat × List String) := []
   deriving Repr, Inhabited
+
+/-- what the scripted panel does on connection `k` (1-based): the script itself unless it names a mode per connection -/
+def connScript (sc : Script) (k : Nat) : Script :=
+  match (match sc.per[k - 1]? with | some p => some p | none => sc.per.getLast?) with
+  | some (m, s, e) => { sc with mode := m, stream := s, exp := e }
+  | none => sc
 
 /-- "the configured retry period": the period a script configures, or — the property ranges over "configured and
 default retry periods" — the default the library promises its callers when none is configured: 3 s between dial
@@ -187,7 +198,7 @@ def effectiveCancelTime (tr : List TEv) : Option Nat :=
 /-- … and the return is bounded from the later of the cancellation and the consumer's last resumption -/
 def lastConsumerResume (tr : List TEv) : Nat := tr.foldl (fun m x => if x.e = .cres then max m x.t else m) 0
 
-/-- every connection delivers frames 0.. of the stream, at least those completely sent `settleMs` before the
+/-- every connection delivers frames 0.. of the stream it was sent (in the mode that connection negotiated), at least those completely sent `settleMs` before the
 cancellation (all of them when the panel dropped the connection), at most those completely sent; nothing else. -/
 def deliveriesOk (sc : Script) (tr : List TEv) : Option String :=
   let tc := effectiveCancelTime tr
@@ -195,9 +206,10 @@ def deliveriesOk (sc : Script) (tr : List TEv) : Option String :=
     match fuel with
     | 0 => if toks.isEmpty then none else some "unexpected_delivery"
     | fuel + 1 =>
-      let allowed := framesIn sc (maxTx tr k none)
-      let required := framesIn sc (maxTx tr k tc)
-      let (n, rest) := eat allowed sc.exp toks
+      let sck := connScript sc k
+      let allowed := framesIn sck (maxTx tr k none)
+      let required := framesIn sck (maxTx tr k tc)
+      let (n, rest) := eat allowed sck.exp toks
       if n < required then some s!"frame_lost@conn{k}" else go fuel (k + 1) rest
   go (accCount tr) 1 (deliveries tr)
 
